@@ -19,7 +19,7 @@ EXTRACT = ["C15", "C14"]
 BINS = ["c15"]
 NEEDS_CICADA = True
 ALLOWED_AXIOMS = []
-PINNED = ["C15_args", "C15_args_newline_refuted", "C15_func_status", "C15_sete_flat", "C15_sete", "C15_sete_stops", "C15_sete_calls_instances",
+PINNED = ["C15_args", "C15_args_newline_refuted", "C15_func_status", "C15_sete_flat", "C15_sete", "C15_sete_stops", "C15_sete_calls_instances", "C15_flag_preserved", "C15_sete_calls",
           "C15_full", "C15_refuted"]
 TRUSTED = [
     "Coq 8.16.1 kernel (coqc; coqchk in thorough); vm_compute in Example witnesses and in the regression Examples",
@@ -29,7 +29,8 @@ TRUSTED = [
     "Model/Script.v (run_exp with exit_on_error) for the set -e statements, tied by C14's layers and by L2 here",
     "Model/ShellScript.v: exit_on_error and the function table as shell state threaded through run_script / run_lines / "
     "try_run_func / source with the reset at the end of run_script; extracted and used as the reference of layer L2b "
-    "(set -e x function calls x source); only computed instances are proved about it (C15_sete_calls_instances)",
+    "(set -e x function calls x source); proved about it: the flag is preserved by every line (C15_flag_preserved) and flat "
+    "sequences of calls / sources / commands stop at the first failing line (C15_sete_calls), unbounded",
     "extraction: ExtrOcamlBasic only; OCaml 4.13.1; ocaml/c15/drv.ml",
     "harness/src/bin/c15.rs, helpers/hp.c, drive/c15.py (the L2 reference for functions / source / exit is the python "
     "oracle in this file, not an extracted model)",
